@@ -585,6 +585,9 @@ class RefCodec:
         for f in fields:
             if f.mask:
                 used_bits.setdefault(f.mask[0].val, set()).add(f.mask[1])
+            # a '#' handed on to a template as its mask parameter: the bits that template (and whatever it forwards to) gives a meaning to
+            for name, bits in forwarded_mask_bits(f.typ):
+                used_bits.setdefault(name, set()).update(bits)
         for f in fields:
             present = True
             if f.mask:
@@ -988,6 +991,46 @@ class RefCodec:
         """returns (value, consumed) or raises RefError"""
         v, pos = self.dec_decl(d, buf, 0, {}, boxed or d.kind in ("union", "enum"))
         return v, pos
+
+
+def param_mask_bits(d, pname, seen=None):
+    """bits of template parameter pname that the declaration d, or a template it forwards the parameter to, uses as field-mask bits"""
+    seen = seen if seen is not None else set()
+    if (id(d), pname) in seen:
+        return set()
+    seen.add((id(d), pname))
+    out = set()
+    for c in d.constructors:
+        for f in c.fields:
+            if f.mask and f.mask[0].kind == "param" and f.mask[0].val == pname:
+                out.add(f.mask[1])
+            for t in _walk_t(f.typ):
+                if t.kind == "ref":
+                    for (p2, _), a in zip(t.decl.params, t.args):
+                        if a.kind == "param" and a.val == pname:
+                            out |= param_mask_bits(t.decl, p2, seen)
+    return out
+
+
+def _walk_t(t):
+    yield t
+    for sub in ("elem", "a", "b"):
+        x = getattr(t, sub, None)
+        if isinstance(x, T):
+            yield from _walk_t(x)
+
+
+def forwarded_mask_bits(t):
+    """[(local '#' field name, bits)] for every template reference inside type expression t that receives a field as argument"""
+    out = []
+    for x in _walk_t(t):
+        if x.kind == "ref":
+            for (p2, _), a in zip(x.decl.params, x.args):
+                if a.kind == "field":
+                    bits = param_mask_bits(x.decl, p2)
+                    if bits:
+                        out.append((a.val, bits))
+    return out
 
 
 def nat_is_used(fields, name):
